@@ -131,7 +131,7 @@ fn strong_cfg(known_shapes: bool) -> AspCfg {
         AspCfg {
             preds: vec![("p".into(), 1), ("hp".into(), 1), ("tp".into(), 2), ("q_i".into(), 1), ("s".into(), 0), ("x__s".into(), 1), ("r_g".into(), 0)],
             vars: vec!["X".into(), "Y".into(), "V1".into()],
-            syms: vec!["a".into(), "s".into(), "b_s".into(), "aB_1".into(), "a1".into(), "a_".into(), "ab".into(), "s0".into(), "sA".into(), "r_g".into()],
+            syms: vec!["a".into(), "s".into(), "b_s".into(), "aB_1".into(), "a1".into(), "a_".into(), "ab".into(), "s0".into(), "sA".into(), "r_g".into(), "location_b".into(), "location_a".into(), "locationA".into(), "constant2".into(), "constant".into(), "constant_".into()],
             num_lo: -2,
             num_hi: 3,
             term_depth: 2,
